@@ -116,6 +116,14 @@ class Ref(object):
         return '<Ref %s>' % self.dotted
 
 
+class LambdaV(object):
+    """A lambda expression closed over the environment it was written in."""
+
+    def __init__(self, node, env):
+        self.node = node
+        self.env = env
+
+
 class FuncV(object):
     def __init__(self, func, bound=None):
         self.func = func
@@ -395,6 +403,8 @@ class BoolEval(object):
             raise Undecided('%s: unsupported subscript %s' % (func.construct, unparse(e)))
         if isinstance(e, ast.IfExp):
             return self.eval(e.body if self.truth(e.test, env, func) else e.orelse, env, func)
+        if isinstance(e, ast.Lambda):
+            return LambdaV(e, dict(env))
         if isinstance(e, ast.BoolOp):
             # x or y / x and y with python semantics over abstract truthiness
             last = None
@@ -580,6 +590,14 @@ class BoolEval(object):
         raise Undecided('%s: call of %s on %r' % (func.construct, attr, obj))
 
     def apply(self, callee, args, kwargs, func, e):
+        if isinstance(callee, LambdaV):
+            a = callee.node.args
+            if a.vararg or a.kwarg or a.kwonlyargs or kwargs or len(a.args) != len(args):
+                raise Undecided('%s: unsupported lambda call' % func.construct)
+            sub = dict(callee.env)
+            for p, v in zip(a.args, args):
+                sub[p.arg] = v
+            return self.eval(callee.node.body, sub, func)
         if isinstance(callee, Ref):
             d = callee.dotted
             if d in BIN_OPS and len(args) == 2:
